@@ -634,7 +634,8 @@ pub const N_TWO_ARM: u64 = 3 * 8 * 8;
 pub fn implicit_reads() -> Vec<(&'static str, String, usize, Vec<&'static str>)> {
     vec![
         ("callee-argument-never-set", "main:\n    li a0, 1\n    jal g\n    li a7, 1\n    ecall\n    li a7, 10\n    ecall\ng:\n    add a0, a0, a5\n    ret\n".into(), 2, vec!["invalid-use-before-assignment"]),
-        ("ecall-argument-clobbered-by-an-ecall", "main:\n    li a7, 5\n    ecall\n    li a7, 42\n    ecall\n    li a7, 1\n    ecall\n    li a7, 10\n    ecall\n".into(), 4, vec!["invalid-use-before-assignment"]),
+        // (a2 is never assigned; the first ecall hides that from the liveness-based entry lint)
+        ("ecall-argument-never-set-behind-an-ecall", "main:\n    li a7, 5\n    ecall\n    li a7, 54\n    ecall\n    li a7, 1\n    ecall\n    li a7, 10\n    ecall\n".into(), 4, vec!["invalid-use-before-assignment"]),
         ("argument-of-a-callee's-callee-never-set", "main:\n    li a0, 1\n    jal f\n    li a7, 1\n    ecall\n    li a7, 10\n    ecall\nf:\n    addi sp, sp, -4\n    sw ra, 0(sp)\n    jal g\n    lw ra, 0(sp)\n    addi sp, sp, 4\n    ret\ng:\n    add a0, a0, a5\n    ret\n".into(), 2, vec!["invalid-use-before-assignment"]),
     ]
 }
@@ -646,10 +647,9 @@ pub fn fixed_violations() -> Vec<(&'static str, String, usize, Vec<&'static str>
         // a never-assigned register that no ecall writes, read behind an ecall
         ("saved-register-read-in-main-behind-an-ecall", "main:\n    li a0, 1\n    li a7, 1\n    ecall\n    add a0, a0, s5\n    li a7, 1\n    ecall\n    li a7, 10\n    ecall\n".into(), 4, vec!["invalid-use-before-assignment"], Some("s5")),
         ("thread-pointer-read-in-a-function-behind-an-ecall", "main:\n    li a0, 1\n    jal f\n    li a7, 1\n    ecall\n    li a7, 10\n    ecall\nf:\n    li a7, 5\n    ecall\n    add a0, a0, tp\n    ret\n".into(), 10, vec!["invalid-use-before-assignment"], Some("tp")),
-        // a never-assigned (or ecall-clobbered) argument register that a leaf callee neither reads
+        // a never-assigned argument register that a leaf callee neither reads
         // nor writes: the read behind the call is the offending instruction, not the call
         ("garbage-passes-through-a-leaf-call", ".text\nmain:\n    li s0, 7\n    mv a0, s0\n    jal double\n    mv s1, a0\n    add s1, s1, a2\n    mv a0, s1\n    li a7, 1\n    ecall\n    li a7, 10\n    ecall\ndouble:\n    slli a0, a0, 1\n    ret\n".into(), 6, vec!["invalid-use-before-assignment"], Some("a2")),
-        ("ecall-garbage-passes-through-a-leaf-call", ".text\nmain:\n    li a1, 10\n    li a7, 5\n    ecall\n    jal abs\n    rem a0, a0, a1\n    li a7, 1\n    ecall\n    li a7, 10\n    ecall\nabs:\n    bgez a0, abs_done\n    neg a0, a0\nabs_done:\n    ret\n".into(), 6, vec!["invalid-use-before-assignment"], Some("a1")),
         // the return address destroyed in front of the instruction that saves it: the frame code
         // saves and restores the destroyed value faithfully
         ("ra-overwritten-before-it-is-saved", "main:\n    li a0, 5\n    jal ra, f\n    li a7, 1\n    ecall\n    li a7, 10\n    ecall\nf:\n    addi sp, sp, -4\n    li ra, 0\n    sw ra, 0(sp)\n    jal ra, g\n    lw ra, 0(sp)\n    addi sp, sp, 4\n    ret\ng:\n    addi a0, a0, 1\n    ret\n".into(), 9, vec!["overwrite-callee-saved-register", "lost-register-value"], Some("ra")),
